@@ -109,9 +109,16 @@ def run(tier, seed):
     findings, st = sched_checks.judge_results("C14", fired)
     import collections
 
+    # the World's life cycle (start / group / connect / run / shutdown in ANY order): WorldLife.tla model-checked, its whole state
+    # graph replayed on the real World, every recorded call validated by WorldLifeTrace.tla - drift only, never a verdict
+    from harness import life
+
+    wl = life.layer(tier, seed)
     kinds = collections.Counter(next(e["kind"] for e in r["item"]["ev"] if e["k"] == "FAULT") for c, r in fired)
     cov = {
-        "states": mst["distinct"] + st["monitor"]["states"], "transitions": mst["generated"] + st["monitor"]["generated"],
+        "states": mst["distinct"] + st["monitor"]["states"] + wl["model_states"] + wl["trace_validation_states"],
+        "transitions": mst["generated"] + st["monitor"]["generated"] + wl["model_transitions"] + wl["trace_validation_states"],
+        "world_lifecycle_layer": wl,
         "traces_validated_against_impl": st["executions"],
         "samples": sched_checks.sample_of(fired[:1] + fired[len(fired) // 2: len(fired) // 2 + 1]),
         "evaluations": st["executions"], "distinct_nontrivial": st["distinct_traces"],
